@@ -23,7 +23,7 @@
 #include DFAN_C
 #else
 #ifndef MFAN_C
-#define MFAN_C "/repo/hdf/src/mfan.c"
+#define MFAN_C "hdf/src/mfan.c" /* resolved through -I<REPO> (vk.cc_harness) */
 #endif
 #include MFAN_C
 #endif
